@@ -71,6 +71,11 @@ def preload(prop):
     _install_metric()
 
 
+def reset_state():
+    global METRIC_CLS
+    METRIC_CLS = None
+
+
 def gen_plan(prop, run_seed, tier):
     F = Forks(run_seed)
     w, s, f = F.fork("workload"), F.fork("schedule"), F.fork("faults")
@@ -307,6 +312,25 @@ def _run(plan, scratch, log, stats, violation):
                   f"n={n} n_chunks={n_chunks} {label}: chunk {lost} ({sizes[lost]} pairs) withheld but to_dense returned a matrix")
         return False
 
+    # in-memory reuse: one set of loaded chunk objects is combined repeatedly (several orders, with a repeat)
+    stats.oracle_evals += 1
+    loaded = {ci: ChunkedDistanceMatrix.load(p) for ci, p in chunk_files.items()}
+    orders = [list(plan["order"]), sorted(plan["order"]), sorted(plan["order"], reverse=True),
+              list(plan["order"]) + [plan["order"][plan["dup_pos"] % len(plan["order"])]]]
+    for k, od in enumerate(orders):
+        try:
+            dense = ChunkedDistanceMatrix.concat([loaded[ci] for ci in od]).to_dense()
+        except Exception as e:
+            violation("C07.assemble-raised", f"object-reuse:{type(e).__name__}",
+                      f"n={n} n_chunks={n_chunks}: combining the same loaded chunk objects a {k + 1}. time (order {od}) raised {e!r}")
+            break
+        if dense.shape != (n, n) or f64_bits(dense).tolist() != f64_bits(want).tolist():
+            violation("C07.matrix", "object-reuse", f"n={n} n_chunks={n_chunks}: combining the same loaded chunk objects again (order {od}) gives another matrix")
+            break
+    for ci, m in loaded.items():
+        if m.current_index != sizes[ci]:
+            violation("C07.chunk-mutated", "concat", f"chunk object {ci} holds {m.current_index} pairs after being combined, it was loaded with {sizes[ci]}")
+            break
     arrival = [chunk_files[ci] for ci in plan["order"]]
     nonempty = sum(1 for ci in plan["order"] if sizes[ci] > 0)
     # single-chunk computation agrees
